@@ -609,12 +609,12 @@ def stage_glr(work, tier, seed):
                               "meta": {"nodis": bool(nod), "plain": "meta" not in tags}, "inputs": seq})
     # lexically ambiguous grammars, all lexical strategies off: the oracle works on the
     # token lattice the harness computes with its own matcher
-    for gid, text, terms in lexamb_grammars(seed, 10 if tier == "quick" else 60):
+    for gid, text, terms in lexamb_grammars(seed, 40 if tier == "quick" else 120):
         cid = "%s|rn" % gid
         rng = random.Random("%s-%d" % (cid, seed))
         ins = []
-        for iid in range(1, (7 if tier == "quick" else 14)):
-            n = rng.randint(1, 6)
+        for iid in range(1, (9 if tier == "quick" else 14)):
+            n = rng.randint(1, 7)
             alpha = sorted({c for k, t in terms for c in t if c in "ab"}) or ["a"]
             word = "".join(rng.choice(alpha) for _ in range(n))
             if rng.random() < 0.4 and n > 2:
@@ -1297,7 +1297,14 @@ def stage_regen(work, tier, seed):
     grammars = dict(REGEN_GRAMMARS)
     for sh in AST_SHAPES:
         grammars["ast_" + sh[0]] = sh[1]
-    first = [{"id": g, "dir": os.path.join(base, "first_" + g), "grammar": text, "settings": {"algo": "lr"},
+    # the same with location information in the generated types (X / XBase pairs)
+    settings_of = {g: {"algo": "lr"} for g in grammars}
+    for g in list(grammars):
+        if g in REGEN_GRAMMARS or g in ("ast_optional_struct", "ast_calc", "ast_two_optionals", "ast_stmts",
+                                        "ast_json_like", "ast_kinds3", "ast_struct2", "ast_sexp_right"):
+            grammars[g + "@loc"] = grammars[g]
+            settings_of[g + "@loc"] = {"algo": "lr", "loc_info": True}
+    first = [{"id": g, "dir": os.path.join(base, "first_" + g), "grammar": text, "settings": settings_of[g],
               "steps": [{"op": "generate", "force": True}]} for g, text in grammars.items()]
     items = {}
     for h in run_histories(work, "regen0", first):
@@ -1360,7 +1367,7 @@ def stage_regen(work, tier, seed):
         for steps in hists:
             n += 1
             reqs.append({"id": "%s:%d" % (g, n), "dir": os.path.join(base, "h%d" % n), "grammar": text,
-                         "settings": {"algo": "lr"}, "steps": [{"op": "generate", "force": True}] + steps})
+                         "settings": settings_of[g], "steps": [{"op": "generate", "force": True}] + steps})
     res = run_histories(work, "regen", reqs)
     hp = work.path("regen", "hists.ndjson")
     with open(hp, "w") as f:
@@ -1537,6 +1544,61 @@ def stage_determinism(work, tier, seed):
         return {"id": "%s/v%d/%s/%d" % (g, vi, via, rep), "g": g, "given": v, "via": via, "proc": rep, "out": dig}
     with ThreadPoolExecutor(max_workers=run.NCPU) as ex:
         events = list(ex.map(one, jobs))
+    # histories: the same grammar compiled to the same place first with OTHER settings; what the
+    # second compilation leaves there must be what a fresh compilation with its settings writes
+    # (pairs that differ only in flags written as true/false literals included)
+    pairs = [(dict(), dict(partial=True, skip_ws=False)), (dict(partial=True, skip_ws=False), dict()),
+             (dict(algo="glr"), dict(algo="glr", lm="f", go="t")), (dict(algo="glr", lm="f", go="t"), dict(algo="glr")),
+             (dict(partial=True), dict(skip_ws=False)), (dict(algo="glr"), dict()), (dict(gen="arrays"), dict()),
+             (dict(ms="f"), dict(lm="f")), (dict(builder="generic"), dict(builder="generic", partial=True, skip_ws=False))]
+    hjobs = []
+    for gi, g in enumerate(gnames):
+        for pi, (da, db) in enumerate(pairs):
+            if tier == "quick" and (gi + pi) % 3 != 0:
+                continue
+            hjobs.append((g, pi, dict(DET_DEFAULT, **da), dict(DET_DEFAULT, **db), "cli" if (gi + pi) % 2 else "api"))
+
+    def hist(job):
+        g, pi, va, vb, via = job
+        d = os.path.join(base, "hist_%s_%d" % (g, pi))
+        os.makedirs(d, exist_ok=True)
+        gp = os.path.join(d, "g.rustemo")
+        open(gp, "w", encoding="utf-8").write(texts[g])
+        out = os.path.join(d, "out")
+        outcome = "ok"
+        for step, v in enumerate((va, vb)):
+            try:
+                if via == "api":
+                    rq = os.path.join(d, "req%d.json" % step)
+                    rp_ = os.path.join(d, "res%d.json" % step)
+                    json.dump({"grammar_path": gp, "settings": api_settings(v), "out_dir": out, "out_dir_actions": out,
+                               "result_path": rp_}, open(rq, "w"))
+                    subprocess.run([run.vhist_bin(), "api", rq], capture_output=True, text=True,
+                                   env=run.clean_env(), timeout=120)
+                    outcome = json.load(open(rp_))["outcome"] if os.path.exists(rp_) else "crash"
+                else:
+                    r = subprocess.run([rc, gp] + cli_args(v, out), capture_output=True, text=True,
+                                       env=run.clean_env(), timeout=120)
+                    o = r.stdout + r.stderr
+                    outcome = "ok" if r.returncode == 0 and "not generated" not in o else \
+                        ("err" if r.returncode == 0 else "panic")
+            except subprocess.TimeoutExpired:
+                outcome = "hang"
+        dig = digest_dir(out) if outcome == "ok" else outcome
+        return {"id": "%s/h%d/%s" % (g, pi, via), "g": g, "given": vb, "via": via, "proc": 100 + pi, "out": dig}
+    with ThreadPoolExecutor(max_workers=run.NCPU) as ex:
+        hev = list(ex.map(hist, hjobs))
+    # a history event is only comparable if the fresh compilation with the same settings exists
+    events += hev
+    fresh = []
+    seen_keys = {(e["g"], json.dumps(e["given"], sort_keys=True)) for e in events if "/h" not in e["id"]}
+    for g, pi, va, vb, via in hjobs:
+        k_ = (g, json.dumps(vb, sort_keys=True))
+        if k_ not in seen_keys:
+            seen_keys.add(k_)
+            fresh.append((g, 900 + pi, vb, via, 0))
+    with ThreadPoolExecutor(max_workers=run.NCPU) as ex:
+        events += list(ex.map(one, fresh))
     # directory processing: all grammars in one tree, two layouts (different traversal orders)
     for layout in (0, 1):
         root = os.path.join(base, "dir%d" % layout)
@@ -1980,6 +2042,9 @@ AST_SHAPES = [
     ("bool_assign", "S: a?=Ta? n=Num b?=Tb?;\nterminals\nTa: 'a';\nTb: 'b';\nNum: /\\d+/;\n", ["a 1 b", "1"], None),
     ("same_prod_kinds", "S: Num {Aa} | Name {Aa};\nterminals\n" + T_NUMNAME, ["1"], None),
     ("dup_rule_name", "S: A A;\nA: Num;\nA: Name;\nterminals\n" + T_NUMNAME, ["1 x"], None),
+    # the same kind in two PARTS of one rule (has to be refused like the same kind in one part)
+    ("kind_in_two_parts", "S: A A;\nA: Num {Aa} | Num Name {Bb};\nA: Name {Aa};\nterminals\n" + T_NUMNAME, ["1 x"], None),
+    ("kinds_in_two_parts_ok", "S: A A;\nA: Num {Aa} | Num Name {Bb};\nA: Name {Cc};\nterminals\n" + T_NUMNAME, ["1 x"], None),
     ("keyword_field", "S: type=Num fn=Name;\nterminals\n" + T_NUMNAME, ["1 x"], None),
     ("underscore_names", "my_rule: my_item+;\nmy_item: Num | Name;\nterminals\n" + T_NUMNAME, ["1 x 2"], None),
     # names whose snake-case form is a Rust keyword (generated fields, parameters, functions)
